@@ -92,7 +92,7 @@ fn get_id(b: &mut impl Buf) -> Result<SimId, CodecErr> {
     }
     let addr = b.get_u16();
     let gen = b.get_u32();
-    let id = SimId { addr, gen };
+    let id = SimId::new(addr, gen);
     if crate::id::policy().var_ids {
         if b.remaining() < 1 {
             return Err(e("short meta len"));
